@@ -10,6 +10,7 @@ import (
 	"os"
 	"os/exec"
 	"path/filepath"
+	"regexp"
 	"runtime"
 	"sort"
 	"strconv"
@@ -556,9 +557,19 @@ func driver(args []string) int {
 			printed++
 		}
 	}
+	openFinding := map[string]bool{}
+	for _, k := range findings {
+		if k.Status == "open" {
+			openFinding[k.ID] = true
+		}
+	}
 	for _, f := range witnessFailures {
-		// a witness failing without being matched by its own (open) matcher, or a
-		// fixed finding that came back
+		// The witness of an open finding failing is the finding itself (reported
+		// as KNOWN-FINDING below). A witness of a fixed finding failing means the
+		// defect came back: a violation.
+		if m := regexp.MustCompile(`^\[witness ([^\]]+)\]`).FindStringSubmatch(f.Detail); m != nil && openFinding[m[1]] {
+			continue
+		}
 		name := writeReplay(f)
 		violations++
 		fmt.Printf("VIOLATION property=%s replay=%s\n", o.prop, name)
